@@ -232,6 +232,9 @@ func (dtype *Type) NewDataService(uuid dvid.UUID, id dvid.InstanceID, name dvid.
 			return nil, fmt.Errorf("BlockSize must be 3d, not %dd", pt.NumDims())
 		}
 		blockSize, _ = pt.(dvid.Point3d)
+		if blockSize[0] <= 0 || blockSize[1] <= 0 || blockSize[2] <= 0 {
+			return nil, fmt.Errorf("BlockSize %s must be positive in every dimension", blockSize)
+		}
 	} else {
 		blockSize = dvid.Point3d{DefaultBlockSize, DefaultBlockSize, DefaultBlockSize}
 	}
